@@ -10,9 +10,12 @@ import Mathlib.Tactic.NormNum
 
 LTAN ↔ RAAN, Walker constellations, the sun-synchronous solver and the J2 node rate, the Lambert
 solver.  All formulas (`raan2ltan`, `ltan2raan`, `starRaan`, `starNu`, `deltaRaan`, `deltaNu`, `ssoI`,
-`ssoA`, `ssoE`, `j2NodeRate`, `meanMotion`, `lamC`, `lamS`, `lamY`, `lamF`, `lamDF`, `lamA`, `lamFG`) are
-*translated from the Python source on every run* (Generated/*.lean); the loops and the vector
-algebra are in lean/templates/Mission.tpl.  Part 2 (beta angle, B-plane): Props/C19Geom.lean.
+`ssoA`, `ssoE`, `j2NodeRate`, `j2Rates`, `meanMotion`, `lamC`, `lamS`, `lamY`, `lamF`, `lamDF`, `lamA`, `lamFG`, `lamDthetaSrc`,
+`betaSrc`, and the text of the `J2.orbit` accessors `j2OrbitGetter`, `j2OrbitSetter`) are
+*translated from the Python source on every run* (Generated/*.lean); the loops, the vector
+algebra and the state machine of the J2 propagator object are in lean/templates/Mission.tpl.
+Part 2 (beta angle, B-plane): Props/C19Geom.lean.  Part 3 (direction / way selection of `_lambert`, Kepler's
+equation): Props/C19Kepler.lean.  Witnesses: Witness/C19.lean.
 -/
 namespace BeyondVerif.C19
 open BeyondVerif.R BeyondVerif.NumReal
